@@ -306,7 +306,10 @@ def rule_nema(ck, rid="C18.nema"):
         s = canon(arg)
         stacked = s.startswith("np.vstack(") or s.startswith("np.array(") or s.startswith("np.stack(")
         of_phases = f"for phase in {phase}" in s or f"in {phase}]" in s
-        from_cc = f"constraint_currents(sim, constraint_ids={phase})" in s
+        ccf = repo.fn("constraint_currents", module=MOD)
+        ccs = [x for x in ast.walk(arg) if isinstance(x, ast.Call) and call_name(x) == "constraint_currents"]
+        from_cc = len(ccs) == 1 and (lambda b: dotted(b.get(ccf.params[0])) == f.params[0] and dotted(b.get("constraint_ids")) == phase
+                                     and set(b) <= {ccf.params[0], "constraint_ids", "return_magnitudes"})(bind_args(ccs[0], ccf, method=False))
         ck.require(stacked and of_phases and from_cc, rid, f, arg, ok="stacked magnitudes of exactly the requested phase constraints",
                    bad="the currents must be the constraint currents of exactly phase_ids, stacked phase by phase", sink="nema-currents")
     cu = repo.fn("current_unbalance", module=MOD)
